@@ -121,6 +121,56 @@ class Engine:
 
     def field_decl(self, cls: str, field: str):
         """(declaring class, type, ClassDecl) searching bases; None if unknown"""
+        r = self._field_decl(cls, field)
+        if r is None and not getattr(self, "_inferring", False):
+            r = self.infer_field(cls, field)
+        return r
+
+    def infer_field(self, cls: str, field: str):
+        """an attribute missing from the class model: take its type from the assignment in __init__
+        (the value itself stays unknown: any object of that type, possibly aliased with others)"""
+        import ast as _ast
+        key = ("inferred", cls, field)
+        if key in self._cdecl_cache:
+            return self._cdecl_cache[key]
+        res = None
+        fm = self.src.find_method(cls, "__init__")
+        d = self.class_decl(cls)
+        if fm is not None and d is not None and not getattr(d, "ctypes", False):
+            m, c, fdef = fm
+            for node in _ast.walk(fdef):
+                tgt = None
+                if isinstance(node, _ast.Assign) and len(node.targets) == 1:
+                    tgt, val = node.targets[0], node.value
+                elif isinstance(node, _ast.AnnAssign) and node.value is not None:
+                    tgt, val = node.target, node.value
+                if isinstance(tgt, _ast.Attribute) and isinstance(tgt.value, _ast.Name) and tgt.value.id == "self" and tgt.attr == field:
+                    self._inferring = True
+                    saved = (self.discovery, self.mod)
+                    try:
+                        st = State()
+                        st.alloc = z3.Const("alloc_infer", z3.ArraySort(self.S.Ref, z3.BoolSort()))
+                        st.frames = [{"self": Val(ref(cls), z3.Const("self_infer", self.S.Ref)), "__module__": m}]
+                        self.discovery += 1
+                        vals = [v for _, v in self.ev(val, st) if not isinstance(v, Exc)]
+                        if vals and vals[0].t[0] in ("ref", "int", "bool", "float", "str", "set", "list"):
+                            t = vals[0].t
+                            if t[0] in ("list", "set") and len(t) > 1 and t[1] == ("unknown",):
+                                break
+                            dd = self.class_decl(c) or d
+                            dd.fields[field] = t
+                            self.lib.use(f"attribute {c}.{field} is not in the class model: its type {tstr(t)} is taken from the assignment in __init__, its value is arbitrary")
+                            res = (c if self.class_decl(c) is not None else cls, t, dd)
+                    except Exception:
+                        res = None
+                    finally:
+                        self.discovery, self.mod = saved
+                        self._inferring = False
+                    break
+        self._cdecl_cache[key] = res
+        return res
+
+    def _field_decl(self, cls: str, field: str):
         seen = set()
         todo = [cls]
         while todo:
@@ -252,6 +302,8 @@ class Engine:
             for a, v in d.cinfo["classvars"].items():
                 if isinstance(v, int) and not isinstance(v, bool):
                     st.assume(self.classvar_fn(a)(z3.IntVal(self.class_id(cls))) == v)
+                    if a == "type_size" and v >= 0:
+                        st.assume(self.lib.sizeof_cls(z3.IntVal(self.class_id(cls))) == v)
 
     def new_object(self, st: State, cls: str, hint="obj") -> Val:
         r = z3.Const(fresh_name(hint), self.S.Ref)
